@@ -8,12 +8,24 @@ LEVEL = "exploration"
 RULE = ("cross product noise mode x constraint family (incl. measure-zero hyperplane and thin band: every ES candidate infeasible / "
         "empty search set) x geometry (log x constraints) x budget (incl. N_init-1, N_init, tiny, 1, 2) x max_iter 1,2 x "
         "noise_final_samples 0,1 x repeated-point pressure under specified noise (tight boxes, coarse tol_mesh) x constant/plateau "
-        "targets x one-variable constrained problems with a coarse final mesh (local GP refitted on two training points) x many seeds. Refuting event: any exception escaping the constructor of a spec-valid problem or optimize() that was "
+        "targets x one-variable constrained problems with a coarse final mesh (local GP refitted on two training points) x many seeds; plus ONE documented option at a time moved off its default (every boolean flipped, positive numbers halved / doubled) on short problems in all four noise modes (quick: every boolean in the deterministic and one noisy mode + 40 numeric variations in one mode each; thorough: all x all modes). Refuting event: any exception escaping the constructor of a spec-valid problem or optimize() that was "
         "not raised by the user's callables; classified by (type, innermost pybads file:function). Non-trivial/distinct = distinct "
         "(mode, constraint, geometry, landscape, rare-path flags) where rare-path flags are MEASURED at the seams (empty ES "
         "generation, empty search set, duplicate merge, second GP fit, local refit)")
 RUN_KW = {"quick": dict(timeout_case=150, wall_cap=700), "thorough": dict(timeout_case=400, wall_cap=3300)}
-ASSUMPTIONS = ["generated problems are valid by construction (ctor ValueError for an infeasible snapped start is legitimate and not judged)"]
+# options whose non-default value the SOURCE ITSELF marks as unsupported / not implemented (a comment or a TODO at the place
+# that reads them, or a value only the unported MATLAB/VBMC code understands): not "valid option combinations"
+UNSUPPORTED = {"acq_hedge": "bads.py: 'Acquisition hedge (acquisition portfolio) not supported yet'",
+               "fit_lik": "fixed likelihood needs a 'delta' hyperprior that gpyreg does not have",
+               "warp_func": "gaussian_process_train.py: 'TODO warp function'",
+               "gp_samples": "docs: only optimisation of hyperparameters is supported", "stobads": "experimental",
+               "plot": "opens figures", "restarts": "unused", "fun_values": "pre-evaluated values: separate interface",
+               "periodic_vars": "separate interface"}
+FRACTIONS = {"gp_mean_percentile": 100.0, "hpd_frac": 1.0, "improvement_quantile": 1.0, "final_quantile": 1.0, "tol_poi": 1.0, "normalpha_level": 1.0}
+
+
+ASSUMPTIONS = ["option values that the source itself marks as unsupported are not 'valid option combinations' and are not varied: " + ", ".join(sorted(UNSUPPORTED)),
+               "generated problems are valid by construction (ctor ValueError for an infeasible snapped start is legitimate and not judged)"]
 
 RARE = ("empty-es-generation", "empty-search-set", "duplicate-merge", "second-gp-fit", "local-refit", "es-population-shrunk", "gp-fit-retried")
 
@@ -97,6 +109,7 @@ def cases(tier, seed):
             opts["nonlinear_scaling"] = False
         spec = gen.make_spec(rng, D=D, geom=geom, x0mode=x0mode, land=land, mode=mode, cons=cons, options=opts, max_fun_evals=mfe, sigma=sigma)
         out.append({"spec": spec, "fam": fam})
+    out += option_variation_cases(tier, seed)
     # deterministic probes of the two OPEN known findings of this property, so that every run reports them
     for k, extra in enumerate(({"max_fun_evals": 1}, {"hedge_gamma": 0})):
         rng = gen.rng_for(seed, "C09", 900000 + k)
@@ -105,9 +118,67 @@ def cases(tier, seed):
     return out
 
 
+def option_variation_cases(tier, seed):
+    """One documented option at a time moved off its default - every boolean flipped, every positive number halved / doubled
+    (integers stay >= 1, fractions stay inside their range) - on short deterministic and noisy problems."""
+    import os
+
+    from .. import env
+    from ..models import reference_options
+
+    d = os.path.join(env.REPO, "pybads", "bads", "option_configs")
+    paths = [os.path.join(d, "basic_bads_options.ini"), os.path.join(d, "advanced_bads_options.ini")]
+    out = []
+    try:
+        ref2 = reference_options(paths, 2, {})
+    except Exception:
+        return out
+    skip = {"display", "max_fun_evals", "random_seed", "uncertainty_handling", "specify_target_noise", "noise_size", "max_iter"} | set(UNSUPPORTED)
+    var = []
+    for k in sorted(ref2):
+        v = ref2[k]
+        if k in skip:
+            continue
+        if isinstance(v, (bool, np.bool_)):
+            var.append((k, "flip", None))
+        elif isinstance(v, (int, np.integer)) and int(v) >= 2:
+            var += [(k, "half", None), (k, "double", None)]
+        elif isinstance(v, (float, np.floating)) and np.isfinite(v) and v > 0:
+            var += [(k, "half", None), (k, "double", None)]
+    rs = np.random.RandomState(seed + 97)
+    if tier == "quick":
+        bools = [t for t in var if t[1] == "flip"]
+        nums = [t for t in var if t[1] != "flip"]
+        idx = rs.choice(len(nums), size=min(40, len(nums)), replace=False)
+        var = bools + [nums[i] for i in sorted(idx)]
+    modes = ["det", "auto", "he", "declared"]
+    for j, (k, how, _) in enumerate(var):
+        for mode in (modes if tier != "quick" else (["det", ["auto", "he", "declared"][(j + seed) % 3]] if how == "flip" else [modes[(j + seed) % 4]])):
+            rng = gen.rng_for(seed, "C09", 700000 + j * 4 + modes.index(mode))
+            D = int(rng.choice([1, 2, 3]))
+            refD = reference_options(paths, D, {})
+            v = refD[k]
+            if how == "flip":
+                val = not bool(v)
+            elif isinstance(v, (int, np.integer)):
+                val = max(1, int(v) // 2) if how == "half" else int(v) * 2
+                if k in FRACTIONS:
+                    val = int(min(val, FRACTIONS[k]))
+            else:
+                val = float(v) * (0.5 if how == "half" else 2.0)
+                if k in FRACTIONS:
+                    val = min(val, FRACTIONS[k])
+            spec = gen.make_spec(rng, D=D, geom=str(rng.choice(["lin", "log", "unb"])), x0mode="in", land=str(rng.choice(["quad", "l1", "rosen"])),
+                                 mode=mode, options={k: val}, max_fun_evals=int(rng.choice([50, 70])))
+            out.append({"spec": spec, "fam": "option-variation", "option": [k, how]})
+    return out
+
+
 def run_case(case):
     rec = C.run_monitored(case, {"C09"})
     rec["fam"] = case["fam"]
+    if case.get("option"):
+        rec["cnt"]["C09.option_variation_runs"] = 1
     e = rec.get("exc")
     if rec["status"] == "exception" and e and not e.get("origin_in_boundary"):
         inner = e.get("inner") or ("?", "?", 0)
@@ -136,7 +207,7 @@ def summarize(records, tier, seed):
             nt.add((s["noise"]["mode"], s["cons"]["kind"], s["geom"], s["target"]["kind"], tuple(sorted(f & set(RARE)))))
     extra = {"status": C.status_hist(records), "rare_paths_reached_runs": rare,
              "rare_paths_never_reached": [k for k, v in rare.items() if v == 0],
-             "families": {k: sum(1 for r in records if r.get("fam") == k) for k in ("plain", "cons-hard", "dup-pressure", "budget-edge", "plateau", "iter-edge", "tiny-sd", "d1-cons")},
+             "families": {k: sum(1 for r in records if r.get("fam") == k) for k in ("plain", "cons-hard", "dup-pressure", "budget-edge", "plateau", "iter-edge", "tiny-sd", "d1-cons", "option-variation")},
              "duplicate_merges_total": C.count_sum(records, "duplicate_merges"),
              "completed_runs": sum(1 for r in records if r.get("status") == "ok"),
              "exceptions_by_signature": C.other_property_aborts(records, "C09")}
